@@ -202,6 +202,35 @@ class _Rewriter(ast.NodeTransformer):
         return node
 
 
+def drop_dead_statements(tree):
+    """N10 a `continue` that ends a loop body, N11 a bare `return` / `return
+    None` that ends a function, N12 an if whose two arms are the same code."""
+    n = 0
+    for node in ast.walk(tree):
+        if isinstance(node, (ast.For, ast.While, ast.AsyncFor)):
+            while len(node.body) > 1 and isinstance(node.body[-1], ast.Continue):
+                node.body.pop()
+                n += 1
+        if isinstance(node, (ast.FunctionDef, ast.AsyncFunctionDef)):
+            while len(node.body) > 1 and isinstance(node.body[-1], ast.Return) and (
+                    node.body[-1].value is None or (
+                        isinstance(node.body[-1].value, ast.Constant) and
+                        node.body[-1].value.value is None)):
+                node.body.pop()
+                n += 1
+        for field in ('body', 'orelse', 'finalbody'):
+            blk = getattr(node, field, None)
+            if not isinstance(blk, list):
+                continue
+            for i, st in enumerate(blk):
+                if isinstance(st, ast.If) and st.orelse and \
+                        [ast.dump(x) for x in st.body] == [ast.dump(x) for x in st.orelse]:
+                    blk[i:i + 1] = st.body
+                    n += 1
+                    break
+    return n
+
+
 def _is_isinstance(v):
     return isinstance(v, ast.Call) and isinstance(v.func, ast.Name) and \
         v.func.id == 'isinstance' and len(v.args) == 2 and not v.keywords
@@ -222,5 +251,6 @@ def _is_keys_call(c):
 def normalise(tree):
     r = _Rewriter()
     r.visit(tree)
+    r.n += drop_dead_statements(tree)
     ast.fix_missing_locations(tree)
     return r.n
